@@ -9,7 +9,9 @@ package main
 //	<factory> "-" | <entry>;<entry>;...   <entry> = <mesgNum>.<fieldNum>.<basetype 2 hex>.<flags>[:<comp>,<comp>,...]
 //	          flags: "-" or a subsequence of "abc" (a FieldBase.Array, b Type==profile.Bool, c Accumulate);
 //	          <comp> = <destination fieldNum>.<bits>.<a|-> (a: Component.Accumulate); scale 1 and offset 0 everywhere;
-//	          every (mesgNum, fieldNum) not listed is an unknown field (as factory.createUnknownField makes it)
+//	          every (mesgNum, fieldNum) not listed is an unknown field (as factory.createUnknownField makes it);
+//	          "std" = the decoder's default, factory.StandardFactory() (such lines run with exp0: the model has the
+//	          standard factory's base types / array / bool / accumulate flags, regenerated, not its components)
 //	<op>      dec | decx (DecodeWithContext, live context) | decc (cancelled context) | pkh | pki | dis | nxt
 //	          | ci (CheckIntegrity, then the documented reader.Seek(0, io.SeekStart)) | rst<k> (Reset onto a new
 //	          bytes.Reader over the k-th `r:` stream, k ≥ 1, same options)
@@ -55,6 +57,46 @@ func init() {
 	executors["decapi"] = execDecApi
 	executors["dechist"] = execDecApi
 	executors["decapiconsts"] = execDecApiConsts
+	executors["decapistdfac"] = execDecApiStdFactory
+}
+
+// decapistdfac: what the decoder reads of the standard factory's fields, one tuple (mesgNum, fieldNum, baseType, flags)
+// per known field (flags: 1 Array, 2 Type==profile.Bool, 4 Accumulate), as the body of
+// lean/FitModel/Generated/DecApiStdFactory.lean; regenerated on every run. Components and sub-fields are not part of it
+// (lines with the standard factory run with component expansion off).
+func execDecApiStdFactory(args []string) string {
+	fac := factory.StandardFactory()
+	var sb strings.Builder
+	sb.WriteString("def stdFactoryRaw : List (Nat × Nat × Nat × Nat) := [")
+	first := true
+	for m := 0; m < 65536; m++ {
+		for n := 0; n < 256; n++ {
+			f := fac.CreateField(typedef.MesgNum(m), byte(n))
+			if f.Name == factory.NameUnknown {
+				if n == 0 && m >= 1024 && m < 65280 { // no message of the profile up here: skip the block quickly
+					break
+				}
+				continue
+			}
+			fl := 0
+			if f.Array {
+				fl |= 1
+			}
+			if f.Type == profile.Bool {
+				fl |= 2
+			}
+			if f.Accumulate {
+				fl |= 4
+			}
+			if !first {
+				sb.WriteString(", ")
+			}
+			first = false
+			fmt.Fprintf(&sb, "(%d, %d, %d, %d)", m, n, byte(f.BaseType), fl)
+		}
+	}
+	sb.WriteString("]")
+	return sb.String()
 }
 
 // ---------------------------------------------------------------- constants for the model
@@ -117,6 +159,9 @@ func parseDapiFactory(s string) (*dapiFactory, bool) {
 	f := &dapiFactory{m: map[uint32]*proto.FieldBase{}}
 	if s == "-" {
 		return f, true
+	}
+	if s == "std" { // the standard factory (decoder's default): no WithFactory option
+		return nil, true
 	}
 	for _, e := range strings.Split(s, ";") {
 		var comps []proto.Component
@@ -313,7 +358,10 @@ func parseDapiOpts(s string) (dapiOpts, bool) {
 }
 
 func (o dapiOpts) options(fac *dapiFactory, lis *dapiListener) []decoder.Option {
-	opts := []decoder.Option{decoder.WithFactory(fac)}
+	var opts []decoder.Option
+	if fac != nil {
+		opts = append(opts, decoder.WithFactory(fac))
+	}
 	if !o.chk {
 		opts = append(opts, decoder.WithIgnoreChecksum())
 	}
@@ -1076,8 +1124,45 @@ func genDecApi(emit func(string), tier string, rng *Rng) {
 			}
 		}
 	}
+	// 8. the standard factory (expansion off): fixtures whole, mutated, chained; encoder outputs
+	stdOpt := func() string {
+		o := dapiOptString(rng)
+		return strings.Replace(o, "exp1", "exp0", 1)
+	}
+	var small [][]byte
+	for _, p := range fixtureFiles() {
+		b, err := os.ReadFile(p)
+		if err != nil || len(b) > 1<<16 && tier != "thorough" || len(b) > 1<<21 {
+			continue
+		}
+		emit(dapiLine("decapi", stdOpt(), "std", "pki,dec,nxt,dec", [][]byte{b}))
+		count("std-fixture")
+		if len(b) < 1<<14 {
+			small = append(small, b)
+			for j := 0; j < 4; j++ {
+				emit(dapiLine("decapi", stdOpt(), "std", dapiRandOps(rng, 5, 0), [][]byte{mutate(rng, mutate(rng, b))}))
+				count("std-fixture-mutated")
+			}
+		}
+	}
+	for i := 0; i < 40*scale && len(small) > 1; i++ {
+		a, b2 := small[rng.Intn(len(small))], small[rng.Intn(len(small))]
+		emit(dapiLine("decapi", stdOpt(), "std", dapiRandOps(rng, 6, 1), [][]byte{append(append([]byte(nil), a...), b2...), small[rng.Intn(len(small))]}))
+		count("std-chain")
+	}
 	var eops []string
 	genEncW(func(l string) { eops = append(eops, l) }, "quick", rng.Fork(11))
+	for i := 0; i < 300*scale && i < len(eops); i++ {
+		b := encodeOp(eops[len(eops)-1-i])
+		if len(b) == 0 || len(b) > 20000 {
+			continue
+		}
+		if rng.Intn(3) == 0 {
+			b = mutate(rng, b)
+		}
+		emit(dapiLine("decapi", stdOpt(), "std", dapiRandOps(rng, 4, 0), [][]byte{b}))
+		count("std-encoder-output")
+	}
 	for i := 0; i < 300*scale && i < len(eops); i++ {
 		b := encodeOp(eops[i])
 		if len(b) == 0 || len(b) > 20000 {
